@@ -658,7 +658,7 @@ def parab_checks(ctx, rec, case):
 
 def correspond(ctx):
     drv = ctx.driver()
-    n = ctx.size(90, 400)
+    n = ctx.size(90, 340)
     max_len = ctx.size(12, 72)
     cases = gen_cases(ctx, n, max_len)
     cases += gen_zero_cases(ctx, ctx.size(6, 40))
@@ -893,7 +893,7 @@ def _run_oracle(ctx, cases, label):
 
 
 def oracle(ctx):
-    n = ctx.size(150, 600)
+    n = ctx.size(150, 500)
     max_len = ctx.size(14, 72)
     cases = gen_cases(ctx, n, max_len)
     wr, wc = _run_oracle(ctx, cases, "oracle")
